@@ -62,20 +62,34 @@ def _cut(mid, how):
 
     if how == "persist":
         return mid.persist()
-    if how == "delayed":
+    if how in ("delayed", "delayed_nv"):
         divs = mid.divisions if mid.known_divisions else None
-        return dx.from_delayed(mid.to_delayed(), meta=mid._meta, divisions=divs)
+        return dx.from_delayed(mid.to_delayed(), meta=mid._meta, divisions=divs, verify_meta=(how == "delayed"))
     if how == "legacy":
         return dx.from_legacy_dataframe(mid.to_legacy_dataframe())
     raise ValueError(how)
 
 
+_CUT_OPS = [
+    programs.Op("parts_rev", lambda d: d.partitions[::-1] if programs._dd(d) else d, family="partitions", unordered=True),
+    programs.Op("parts_tail", lambda d: d.partitions[1:] if programs._dd(d) else d.iloc[3:], family="partitions"),
+    programs.Op("parts_20", lambda d: d.partitions[[2, 0]] if programs._dd(d) else d.iloc[[6, 7, 0, 1, 2]], family="partitions", unordered=True),
+    programs.Op("tail2c", lambda d: d.tail(2, compute=False) if programs._dd(d) else d.tail(2), family="head"),
+]
+
+
+def _all_ops():
+    return {o.name: o for o in list(programs.UNARY) + _CUT_OPS}
+
+
 def _chains(ctx):
-    ops = {o.name: o for o in programs.UNARY}
+    ops = _all_ops()
     terms = {o.name: o for o in programs.TERMINAL}
     heads = ["proj_ab", "filt_a", "assign_z", "add1", "rename_aA", "set_index_a", "sort_b", "cumsum", "shuffle_b",
-             "repart2", "dropna_c", "mappart", "reset_index", "fillna0", "head3", "dropdup_b", "shift1", "prefix"]
-    tails = ["proj_ab", "filt_a", "assign_a", "add1", "fillna0", "repart5", "cumsum", "sort_a_desc", "abs", "dropna"]
+             "repart2", "dropna_c", "mappart", "reset_index", "fillna0", "head3", "dropdup_b", "shift1", "prefix",
+             "parts_rev", "parts_tail", "parts_20"]
+    tails = ["proj_ab", "filt_a", "assign_a", "add1", "fillna0", "repart5", "cumsum", "sort_a_desc", "abs", "dropna",
+             "parts_tail", "parts_20", "tail2c"]
     tnames = ["id", "sum", "count", "len", "col0", "gb_sum", "self_add", "index", "shared_sum"]
     cases = []
     for h in heads:
@@ -93,7 +107,7 @@ def _legal(h, t, tn, ops, terms):
 
 
 def run_case(case):
-    ops = {o.name: o for o in programs.UNARY}
+    ops = _all_ops()
     terms = {o.name: o for o in programs.TERMINAL}
     h, t, tn, how, cutpos = case["head"], case["tail"], case["term"], case["how"], case["cut"]
     env = programs.dask_env(*[(None, None, True), ([0, 0, 3, 8], [0, 6], True), ([0, 1, 2, 4, 8], [0, 1, 6], False)][case.get("layout", 0)])
@@ -130,6 +144,8 @@ def run_case(case):
         qd = q.divisions
         if qd[0] is not None and want_div[0] is not None and tuple(qd) != tuple(want_div) and not unordered:
             return f"divisions differ: {qd} vs {want_div}"
+        if how != "legacy" and (qd[0] is None) != (want_div[0] is None):
+            return f"the cut query reports divisions {qd}, the uncut query {want_div}: one is known, the other is not"
         if len(qd) != len(want_div) and how != "legacy":
             return f"npartitions differ: {len(qd) - 1} vs {len(want_div) - 1}"
     # the graph of the re-imported query is well-formed (proven checker)
@@ -150,12 +166,14 @@ def _cases(ctx):
     for (h, t, tn) in chains:
         if not _legal(h, t, tn, ops, terms):
             continue
-        for how in ("persist", "delayed", "legacy"):
+        for how in ("persist", "delayed", "delayed_nv", "legacy"):
             for cut in (1, 2):
                 cases.append({"head": h, "tail": t, "term": tn, "how": how, "cut": cut, "layout": 0})
     ctx.rng.shuffle(cases)
+    must = [c for c in cases if (c["head"] in ("parts_rev", "parts_tail", "parts_20") and c["cut"] == 1 and c["how"] == "persist" and c["term"] in ("id", "sum") and c["tail"] in ("proj_ab", "add1"))
+            or (c["how"] == "delayed_nv" and c["cut"] == 1 and c["tail"] in ("parts_tail", "parts_20", "tail2c") and c["term"] == "id" and c["head"] in ("add1", "filt_a"))]
     if ctx.quick:
-        cases = cases[:260]
+        cases = must + cases[:220]
     else:
         cases = cases + [dict(c, layout=1) for c in cases[:1500]] + [dict(c, layout=2) for c in cases[:1500]]
     return cases
